@@ -471,6 +471,7 @@ type c10Info struct {
 	mode     os.FileMode
 	mtime    int64
 	uid, gid uint32
+	sys      any // what Sys() returns; the owner stated through Uid()/Gid() is what the client is to see
 }
 
 func (i c10Info) Name() string       { return i.name }
@@ -478,7 +479,7 @@ func (i c10Info) Size() int64        { return i.size }
 func (i c10Info) Mode() os.FileMode  { return i.mode }
 func (i c10Info) ModTime() time.Time { return time.Unix(i.mtime, 0) }
 func (i c10Info) IsDir() bool        { return i.mode.IsDir() }
-func (i c10Info) Sys() any           { return nil }
+func (i c10Info) Sys() any           { return i.sys }
 func (i c10Info) Uid() uint32        { return i.uid }
 func (i c10Info) Gid() uint32        { return i.gid }
 
